@@ -43,6 +43,11 @@ func Verif_H02Reopen() {
 			gcStep(s, op, "history")
 		}
 	}
+	if c.gc && vrt.Param("gcbeforeclose", 0) != 0 {
+		gcStep(s, opPrimaryGC, "before-close")
+		gcStep(s, opIndexGC, "before-close")
+		checkAll(s, keys, m, "after-gc-before-close")
+	}
 	vrt.Assert(s.Close() == nil, "close-no-error")
 	live := bucketSnapshot(s) // table as it was saved (Close flushed everything)
 	vrt.Assert(s.Close() == nil, "second-close-is-a-no-op")
